@@ -941,6 +941,65 @@ func c10NetCode(c *Ctx) {
 				}
 				ok = guarded && before && fromDo
 				c.Check(ok, "O10.4", fk(shoot)+":net-code-from-the-exchange-error", se[0].Pos(), fmt.Sprintf("SetErr(err) only on err != nil: %v; before Report: %v; err is (among others) the error of Client.Do: %v", guarded, before, fromDo))
+				// the exchange includes the body: after a successful Do every path to a normal return drains the
+				// response body with a read whose error lands in that same variable (a body that breaks off is a failed
+				// exchange: its errno-style net code comes from this error)
+				if do != nil {
+					isBodyRead := func(in ssa.Instruction) bool {
+						cl, isCall := in.(*ssa.Call)
+						if !isCall || !MatchCC(&cl.Call, Spec{"io", "", "Copy"}, Spec{"io", "", "ReadAll"}, Spec{"io/ioutil", "", "ReadAll"}, Spec{"io", "", "CopyN"}, Spec{"io", "", "CopyBuffer"}) {
+							return false
+						}
+						fromBody := false
+						for _, a := range cl.Call.Args {
+							if DerivesAny(a, false, func(v ssa.Value) bool {
+								fv, base := FieldOf(Strip(v))
+								if fv == nil || fv.Name() != "Body" {
+									return false
+								}
+								_, tn := NamedOf(base.Type())
+								return tn == "Response"
+							}) {
+								fromBody = true
+							}
+						}
+						if !fromBody {
+							return false
+						}
+						// its error goes where SetErr looks
+						e, _ := errResult(cl)
+						if e == nil {
+							return false
+						}
+						stored := false
+						if rs := e.Referrers(); rs != nil {
+							for _, r := range *rs {
+								if st, isSt := r.(*ssa.Store); isSt && st.Val == e {
+									if DerivesAny(arg, false, func(v ssa.Value) bool { return v == e }) {
+										stored = true
+									}
+								}
+							}
+						}
+						return stored || DerivesAny(arg, false, func(v ssa.Value) bool { return v == e })
+					}
+					errNil := func(op token.Token) func(ssa.Value) bool {
+						return func(v ssa.Value) bool {
+							b, isB := v.(*ssa.BinOp)
+							return isB && b.Op == op && IsNilConst(b.Y) && types.Identical(b.X.Type(), errType)
+						}
+					}
+					iv := PathQuery{Fn: shoot, Start: do, Assume: []Assumption{{Pred: errNil(token.NEQ), Val: false}, {Pred: errNil(token.EQL), Val: true}},
+						Exit: func(b *ssa.BasicBlock) bool { return ExitOf(b) == ExitReturn && b != shoot.Recover },
+						Weight: func(in ssa.Instruction) (int, int) {
+							if isBodyRead(in) {
+								return 1, 1
+							}
+							return 0, 0
+						}}.Count()
+					c.Check(!iv.NoPath && iv.Min >= 1, "O10.4", fk(shoot)+":body-read-belongs-to-the-exchange", do.Pos(),
+						fmt.Sprintf("reads of the response body whose error reaches SetErr, on the paths from a successful Do to a normal return = %v (want at least 1 on every path); witness %s", iv, PathString(iv.MinPath)))
+				}
 			} else {
 				c.Bad("O10.4", fk(shoot)+":net-code-from-the-exchange-error", dfn.Pos(), fmt.Sprintf("%d SetErr calls in the deferred report (want 1)", len(se)))
 			}
